@@ -2,8 +2,17 @@
 
 Correspondence: the extracted model (coq/GroupIter.v, ocaml/drv_c12.ml) and the
 real sbepp.hpp (cpp/c12_harness.cpp, generated hs_c12 schema with one flat
-group per (numInGroup type, blockLength type) pair and six nested groups) are
-run on the same case lines.  Three expectations are compared for every case:
+group per dimension composite and nested groups for a subset) are run on the
+same case lines.  Dimension composites (class Dim): the 16 two-member ones
+(blockLength, numInGroup) for every type pair, plus composites whose size is
+NOT sizeof(blockLength)+sizeof(numInGroup) or whose members are elsewhere:
+ext (SBE 2.0 style trailing numGroups uint16 + numVarDataFields uint8), pad
+(blockLength at offset 0, numInGroup at offset 8), rev (numInGroup declared
+before blockLength).  Every case line names its composite as
+"S B shape H obl ong" (types, shape, size, member offsets - computed HERE from
+the schema text that is generated here) and the header bytes of every harness
+buffer are built HERE (hdr_bytes: blockLength / numInGroup at the member
+offsets, filler elsewhere).  Three expectations are compared for every case:
 
   spec   -- computed here, independently of the model, whenever the documented
             preconditions (the hypotheses of the C12 theorems) hold: entry i is
@@ -52,8 +61,106 @@ def dmin(s):
     return -2 ** (BITS[s] - 1)
 
 
-def hdr(s, b):
-    return BITS[s] // 8 + BITS[b] // 8
+def wb(t):
+    return BITS[t] // 8
+
+
+# --------------------------------------------------------------------------
+# dimension composites
+# --------------------------------------------------------------------------
+
+class Dim:
+    """a dimension composite of the harness schema: members in declaration order
+    as (name, primitive type key, explicit offset or None); the layout (member
+    offsets, size) follows the SBE rules: a member starts at its explicit offset,
+    else where the previous one ends; the composite ends where its last member ends"""
+
+    def __init__(self, shape, s, b, members):
+        self.shape, self.s, self.b, self.members = shape, s, b, members
+        pos = 0
+        self.offsets = {}
+        for name, t, off in members:
+            if off is not None:
+                assert off >= pos
+                pos = off
+            self.offsets[name] = pos
+            pos += wb(t)
+        self.H = pos
+        self.obl = self.offsets["blockLength"]
+        self.ong = self.offsets["numInGroup"]
+        self.key = "%s_%s_%s" % (shape, s, b) if shape != "std" else "%s_%s" % (s, b)
+
+    def tokens(self):
+        return "%s %s %s %d %d %d" % (self.s, self.b, self.shape, self.H, self.obl, self.ong)
+
+    def xml(self):
+        t = '<composite name="dim_%s">\n' % self.key
+        for name, ty, off in self.members:
+            t += '  <type name="%s" primitiveType="%s"%s/>\n' % (
+                name, PRIM[ty], "" if off is None else ' offset="%d"' % off)
+        return t + "</composite>\n"
+
+    def hdr_bytes(self, ng, bl):
+        """the H bytes of the composite: blockLength / numInGroup (little-endian) at their
+        member offsets, a recognisable non-zero filler in every other byte (extra members,
+        padding) so that a read at a wrong offset does not see the right value by accident"""
+        h = bytearray((0xA1 + 7 * i) & 0xFF for i in range(self.H))
+        h[self.obl:self.obl + wb(self.b)] = (bl % 2 ** BITS[self.b]).to_bytes(wb(self.b), "little")
+        h[self.ong:self.ong + wb(self.s)] = (ng % 2 ** BITS[self.s]).to_bytes(wb(self.s), "little")
+        assert len(h) == self.H
+        return bytes(h)
+
+
+def std_dim(s, b):
+    return Dim("std", s, b, [("blockLength", b, None), ("numInGroup", s, None)])
+
+
+def ext_dim(s, b):
+    return Dim("ext", s, b, [("blockLength", b, None), ("numInGroup", s, None),
+                             ("numGroups", "u16", None), ("numVarDataFields", "u8", None)])
+
+
+def pad_dim(s, b):
+    return Dim("pad", s, b, [("blockLength", b, 0), ("numInGroup", s, 8)])
+
+
+def rev_dim(s, b):
+    return Dim("rev", s, b, [("numInGroup", s, None), ("blockLength", b, None)])
+
+
+# (numInGroup type, blockLength type)
+STD = [std_dim(s, b) for s in T for b in T]
+EXTRA = [ext_dim("u8", "u16"), ext_dim("u16", "u16"), ext_dim("u32", "u32"), ext_dim("u16", "u8"),
+         pad_dim("u8", "u32"), pad_dim("u64", "u16"),
+         rev_dim("u16", "u32"), rev_dim("u32", "u8")]
+FLAT_DIMS = STD + EXTRA
+NESTED_DIMS = [d for d in STD if (d.s, d.b) in NESTED] + EXTRA
+SHAPES = ("std", "ext", "pad", "rev")
+DIM_BY_KEY = {(d.shape, d.s, d.b): d for d in FLAT_DIMS}
+
+
+def dim_of(a, i):
+    """the composite named by tokens a[i:i+6] = S B shape H obl ong"""
+    d = DIM_BY_KEY[(a[i + 2], a[i], a[i + 1])]
+    assert (d.H, d.obl, d.ong) == (int(a[i + 3]), int(a[i + 4]), int(a[i + 5])), a
+    return d
+
+
+def upgrade_line(l):
+    """replays recorded before the protocol carried the dimension composite: insert the
+    two-member composite (and its header bytes where the command has them)"""
+    a = l.split()
+    i = 2 if a[0] == "c12n" else 3
+    if a[i + 2] in SHAPES:
+        return l
+    d = DIM_BY_KEY[("std", a[i], a[i + 1])]
+    if a[0] in ("c12f", "c12g"):     # ... S B | goff ng bl ...
+        extra = [d.hdr_bytes(int(a[i + 3]), int(a[i + 4])).hex()]
+    elif a[0] == "c12n":             # ... S B | pre bl cut k ...
+        extra = [d.hdr_bytes(int(a[i + 5]), int(a[i + 3])).hex()]
+    else:
+        extra = []
+    return " ".join(a[:i] + d.tokens().split() + extra + a[i + 2:])
 
 
 # --------------------------------------------------------------------------
@@ -61,24 +168,19 @@ def hdr(s, b):
 # --------------------------------------------------------------------------
 
 def c12_schema():
-    t = ""
-    for ng in T:
-        for bl in T:
-            t += ('<composite name="dim_%s_%s">\n  <type name="blockLength" primitiveType="%s"/>\n'
-                  '  <type name="numInGroup" primitiveType="%s"/>\n</composite>\n' % (ng, bl, PRIM[bl], PRIM[ng]))
+    t = "".join(d.xml() for d in FLAT_DIMS)
     m = ""
     i = 1
-    for ng in T:
-        for bl in T:
-            m += ('<sbe:message name="f_%s_%s" id="%d">\n  <group name="g" id="1" dimensionType="dim_%s_%s">\n'
-                  '    <field name="x" id="1" type="uint8"/>\n  </group>\n</sbe:message>\n' % (ng, bl, i, ng, bl))
-            i += 1
-    for ng, bl in NESTED:
-        m += ('<sbe:message name="n_%s_%s" id="%d">\n  <group name="g" id="1" dimensionType="dim_%s_%s">\n'
+    for d in FLAT_DIMS:
+        m += ('<sbe:message name="f_%s" id="%d">\n  <group name="g" id="1" dimensionType="dim_%s">\n'
+              '    <field name="x" id="1" type="uint8"/>\n  </group>\n</sbe:message>\n' % (d.key, i, d.key))
+        i += 1
+    for d in NESTED_DIMS:
+        m += ('<sbe:message name="n_%s" id="%d">\n  <group name="g" id="1" dimensionType="dim_%s">\n'
               '    <field name="x" id="1" type="uint8"/>\n'
               '    <group name="inner" id="2" dimensionType="groupSizeEncoding">\n'
               '      <field name="y" id="1" type="uint8"/>\n    </group>\n  </group>\n</sbe:message>\n'
-              % (ng, bl, i, ng, bl))
+              % (d.key, i, d.key))
         i += 1
     return schema_xml("hs_c12", t, m)
 
@@ -98,14 +200,15 @@ def cmp6(i, j):
 def spec_expr(a):
     """a = split case line of c12f; returns dict of expected fields, 'A', or None"""
     chk, s, b = int(a[2]), a[3], a[4]
-    goff, ng, bl, elen = int(a[5]), int(a[6]), int(a[7]), int(a[8])
-    start, k = a[9], int(a[10])
-    ops = [(a[11 + 2 * i], int(a[12 + 2 * i])) for i in range(k)]
-    m = int(a[11 + 2 * k])
-    data = goff + hdr(s, b)
+    H = dim_of(a, 3).H
+    goff, ng, bl, elen = int(a[10]), int(a[11]), int(a[12]), int(a[13])
+    start, k = a[14], int(a[15])
+    ops = [(a[16 + 2 * i], int(a[17 + 2 * i])) for i in range(k)]
+    m = int(a[16 + 2 * k])
+    data = goff + H
     if ng * bl >= 2 ** 63 or not addr_ok(data + ng * bl) or not addr_ok(data):
         return None
-    if chk and not (0 <= elen < 2 ** 64 and hdr(s, b) + ng * bl <= elen):
+    if chk and not (0 <= elen < 2 ** 64 and H + ng * bl <= elen):
         return None   # view does not cover the group: assertion or not depends on the path
     i = 0 if start == "b" else ng
 
@@ -144,11 +247,12 @@ def spec_expr(a):
 
 def spec_group(a):
     chk, s, b = int(a[2]), a[3], a[4]
-    goff, ng, bl, elen, pos, k = int(a[5]), int(a[6]), int(a[7]), int(a[8]), int(a[9]), int(a[10])
-    data = goff + hdr(s, b)
+    H = dim_of(a, 3).H
+    goff, ng, bl, elen, pos, k = int(a[10]), int(a[11]), int(a[12]), int(a[13]), int(a[14]), int(a[15])
+    data = goff + H
     if chk and not (0 <= elen < 2 ** 64):
         return None
-    if chk and elen < hdr(s, b):
+    if chk and elen < H:
         # the view does not even cover the header: every accessor must assert
         return {f: "A" for f in ("size", "begin", "end", "sb", "at", "front", "back", "walk")}
     if not addr_ok(data):
@@ -158,7 +262,7 @@ def spec_group(a):
     whole = ng * bl < 2 ** 63 and addr_ok(data + ng * bl)
     if whole:
         out["end"] = str(data + ng * bl)
-        out["sb"] = str(hdr(s, b) + ng * bl)
+        out["sb"] = str(H + ng * bl)
     if pos < ng:
         if pos * bl < 2 ** 63 and addr_ok(data + pos * bl):
             out["at"] = str(data + pos * bl)
@@ -179,29 +283,32 @@ def spec_group(a):
 
 def spec_resize(a):
     chk, s, b = int(a[2]), a[3], a[4]
-    buf = bytes.fromhex(a[5]) if a[5] != "-" else b""
-    p, elen, count = int(a[6]), int(a[7]), int(a[8])
-    h = hdr(s, b)
+    d = dim_of(a, 3)
+    buf = bytes.fromhex(a[9]) if a[9] != "-" else b""
+    p, elen, count = int(a[10]), int(a[11]), int(a[12])
+    h = d.H
     if p + h > len(buf):
         return None
     if chk and not (0 <= elen < 2 ** 64):
         return None
     if chk and elen < h:
         return {"resize": "A", "size": "-", "clear": "-"}
-    wb, ws = BITS[b] // 8, BITS[s] // 8
+    ws = wb(s)
+    q = p + d.ong                       # only the numInGroup bytes change, wherever they are
     c = count % 2 ** BITS[s]
-    b1 = buf[:p + wb] + c.to_bytes(ws, "little") + buf[p + wb + ws:]
-    b2 = buf[:p + wb] + (0).to_bytes(ws, "little") + buf[p + wb + ws:]
+    b1 = buf[:q] + c.to_bytes(ws, "little") + buf[q + ws:]
+    b2 = buf[:q] + (0).to_bytes(ws, "little") + buf[q + ws:]
     return {"resize": b1.hex(), "size": str(c), "clear": b2.hex()}
 
 
 def spec_nested(a):
     chk, s, b = int(a[1]), a[2], a[3]
-    pre, bl, cut, k = int(a[4]), int(a[5]), int(a[6]), int(a[7])
-    ents = [(int(a[8 + 2 * i]), int(a[9 + 2 * i])) for i in range(k)]
+    H = dim_of(a, 2).H
+    pre, bl, cut, k = int(a[9]), int(a[10]), int(a[11]), int(a[12])
+    ents = [(int(a[13 + 2 * i]), int(a[14 + 2 * i])) for i in range(k)]
     if cut != 0:
         return None
-    pos = pre + hdr(s, b)
+    pos = pre + H
     starts = []
     for ibl, icnt in ents:
         starts.append(pos)
@@ -249,29 +356,33 @@ def alphabet(s, ng):
     return al
 
 
-def expr_line(chk, s, b, goff, ng, bl, elen, start, ops, m):
+def expr_line(chk, d, goff, ng, bl, elen, start, ops, m):
     return "c12f cur %d %s %s %d %d %d %d %s %d %s%d" % (
-        chk, s, b, goff, ng, bl, elen, start, len(ops),
+        chk, d.tokens(), d.hdr_bytes(ng, bl).hex(), goff, ng, bl, elen, start, len(ops),
         "".join("%s %d " % o for o in ops), m)
+
+
+def group_line(chk, d, goff, ng, bl, elen, pos, k):
+    return "c12g cur %d %s %s %d %d %d %d %d %d" % (chk, d.tokens(), d.hdr_bytes(ng, bl).hex(), goff, ng, bl, elen, pos, k)
 
 
 def gen_expr_cases(rng, tier):
     thorough = tier == "thorough"
     lines = []
-    for s in T:
-        for b in T:
+    for d in FLAT_DIMS:                 # the 16 two-member composites first, then the other shapes
+        for s, b in [(d.s, d.b)]:
             for ng in SIZES[s]:
                 for bl in BLENS[b]:
                     al = alphabet(s, ng)
                     ms = nvals(s, ng)
                     goff = rng.choice([0, 0, 8, 4096])
                     for start in "be":
-                        lines.append(expr_line(0, s, b, goff, ng, bl, 0, start, [], rng.choice(ms)))
+                        lines.append(expr_line(0, d, goff, ng, bl, 0, start, [], rng.choice(ms)))
                         # depth 1: every unary operator, every binary form on a rotating
                         # third of the operand values (all of them in the thorough tier)
                         for (op, n) in al:
                             if thorough or op in UNARY or rng.below(3) == 0:
-                                lines.append(expr_line(0, s, b, goff, ng, bl, 0, start, [(op, n)], rng.choice(ms)))
+                                lines.append(expr_line(0, d, goff, ng, bl, 0, start, [(op, n)], rng.choice(ms)))
                         # depth 2 and 3: sampled, biased towards expressions that stay in range
                         for depth in (2, 3):
                             for _ in range((40 if thorough else 12)):
@@ -293,7 +404,7 @@ def gen_expr_cases(rng, tier):
                                             op, n = form, i - j
                                         i = j
                                     ops.append((op, n))
-                                lines.append(expr_line(0, s, b, goff, ng, bl, 0, start, ops, rng.choice(ms)))
+                                lines.append(expr_line(0, d, goff, ng, bl, 0, start, ops, rng.choice(ms)))
                     if thorough and ng in SIZES[s][:5]:
                         # small scope, exhaustive: every depth-2 expression over a reduced operand
                         # set, every depth-3 expression over a 7-letter alphabet
@@ -304,11 +415,11 @@ def gen_expr_cases(rng, tier):
                         for start in "be":
                             for o1 in small:
                                 for o2 in small:
-                                    lines.append(expr_line(0, s, b, goff, ng, bl, 0, start, [o1, o2], rng.choice(ms)))
+                                    lines.append(expr_line(0, d, goff, ng, bl, 0, start, [o1, o2], rng.choice(ms)))
                             for o1 in tiny:
                                 for o2 in tiny:
                                     for o3 in tiny:
-                                        lines.append(expr_line(0, s, b, goff, ng, bl, 0, start, [o1, o2, o3],
+                                        lines.append(expr_line(0, d, goff, ng, bl, 0, start, [o1, o2, o3],
                                                                rng.choice(ms)))
     return lines
 
@@ -317,11 +428,11 @@ def gen_expr_chk_cases(rng, tier):
     """checks enabled: views that cover the group exactly, generously, or not at all"""
     lines = []
     reps = 6 if tier == "thorough" else 2
-    for s in T:
-        for b in T:
+    for d in FLAT_DIMS:                 # the 16 two-member composites first, then the other shapes
+        for s, b in [(d.s, d.b)]:
             for ng in SIZES[s][:6]:
                 for bl in BLENS[b][:4]:
-                    h = hdr(s, b)
+                    h = d.H
                     total = h + ng * bl
                     for elen in (total, total + 17, max(total - 1, 0), h, h - 1):
                         for _ in range(reps):
@@ -343,38 +454,39 @@ def gen_expr_chk_cases(rng, tier):
                                     else:
                                         ops.append((rng.choice(["sub", "sube"]), i - j))
                                     i = j
-                            lines.append(expr_line(1, s, b, rng.choice([0, 64]), ng, bl, elen, start, ops,
+                            lines.append(expr_line(1, d, rng.choice([0, 64]), ng, bl, elen, start, ops,
                                                    rng.choice([0, 1, -1, ng - i])))
     return lines
 
 
 def gen_group_cases(rng, tier):
     lines = []
-    for s in T:
-        for b in T:
+    for d in FLAT_DIMS:                 # the 16 two-member composites first, then the other shapes
+        for s, b in [(d.s, d.b)]:
             for ng in SIZES[s]:
                 for bl in BLENS[b]:
-                    h = hdr(s, b)
+                    h = d.H
                     total = h + ng * bl
                     poss = [0, 1, ng - 1, ng, ng // 2, 127, 128, 32767, 32768, 2 ** 31, smax(s)]
                     poss = sorted(set(p for p in poss if 0 <= p <= smax(s)))
                     for pos in poss:
                         goff = rng.choice([0, 16, 4096])
                         k = min(ng, rng.choice([0, 1, 2, 3, 130, 300]))
-                        lines.append("c12g cur 0 %s %s %d %d %d 0 %d %d" % (s, b, goff, ng, bl, pos, k))
+                        lines.append(group_line(0, d, goff, ng, bl, 0, pos, k))
                         for elen in (total, total + 5, h, h - 1, max(total - 1, h)):
                             if elen < 2 ** 63 and (tier == "thorough" or rng.below(2) == 0):
                                 k2 = rng.choice([k, k + 1, min(ng + 1, 300)])
-                                lines.append("c12g cur 1 %s %s %d %d %d %d %d %d" % (s, b, goff, ng, bl, elen, pos, k2))
+                                lines.append(group_line(1, d, goff, ng, bl, elen, pos, k2))
     return lines
 
 
 def gen_resize_cases(rng, tier):
     lines = []
     n = 40 if tier == "thorough" else 8
-    for kind, pairs in (("f", [(s, b) for s in T for b in T]), ("n", NESTED)):
-        for s, b in pairs:
-            h = hdr(s, b)
+    for kind, dims in (("f", FLAT_DIMS), ("n", NESTED_DIMS)):
+        for d in dims:
+            s, b = d.s, d.b
+            h = d.H
             for _ in range(n):
                 p = rng.below(5)
                 tail = rng.below(6)
@@ -384,14 +496,15 @@ def gen_resize_cases(rng, tier):
                 for chk in (0, 1):
                     elens = [h + tail] if chk == 0 else [h + tail, h, h - 1]
                     for elen in elens:
-                        lines.append("c12r %s %d %s %s %s %d %d %d" % (kind, chk, s, b, buf.hex(), p, elen, count))
+                        lines.append("c12r %s %d %s %s %d %d %d" % (kind, chk, d.tokens(), buf.hex(), p, elen, count))
     return lines
 
 
 def gen_nested_cases(rng, tier):
     lines = []
     n = 60 if tier == "thorough" else 14
-    for s, b in NESTED:
+    for d in NESTED_DIMS:
+        s, b = d.s, d.b
         for _ in range(n):
             k = rng.choice([0, 1, 2, 3, 5, 9])
             bl = rng.choice([0, 1, 2, 7, 40]) if b != "u8" else rng.choice([0, 1, 2, 7, 255])
@@ -402,13 +515,14 @@ def gen_nested_cases(rng, tier):
                 icnt = rng.choice([0, 1, 2, 5])
                 ents.append((ibl, icnt))
             es = "".join(" %d %d" % e for e in ents)
+            hx = d.hdr_bytes(k, bl).hex()
             for chk in (0, 1):
-                lines.append("c12n %d %s %s %d %d 0 %d%s" % (chk, s, b, pre, bl, k, es))
+                lines.append("c12n %d %s %s %d %d 0 %d%s" % (chk, d.tokens(), hx, pre, bl, k, es))
             # truncated views (checks enabled only): the walk must assert, never read past the end
-            total = hdr(s, b) + sum(bl + 4 + i * c for i, c in ents) + 3
+            total = d.H + sum(bl + 4 + i * c for i, c in ents) + 3
             for cut in sorted(set([3, 4, 5, rng.below(total) + 3])):
                 if cut <= total + pre:
-                    lines.append("c12n 1 %s %s %d %d %d %d%s" % (s, b, pre, bl, cut, k, es))
+                    lines.append("c12n 1 %s %s %d %d %d %d%s" % (d.tokens(), hx, pre, bl, cut, k, es))
     return lines
 
 
@@ -435,14 +549,19 @@ def run_parallel(exe, lines, nproc=12):
 
 def category(line_args, field):
     a = line_args
-    if a[0] == "c12n":
-        return "%s:%s/%s:%s" % (a[0], a[2], a[3], field)
-    return "%s:%s/%s:%s" % (a[0], a[3], a[4], field)
+    i = 2 if a[0] == "c12n" else 3
+    shape = "" if a[i + 2] == "std" else a[i + 2] + ":"
+    return "%s:%s%s/%s:%s" % (a[0], shape, a[i], a[i + 1], field)
 
 
 def run(res, replay=None):
     rng = SplitMix64(res.seed)
-    res.rule = ("flat groups, all 16 (numInGroup, blockLength) type pairs x sizes {0,1,2,3,127,128,255,32767,32768,"
+    res.rule = ("dimension composites: the 16 two-member ones (blockLength, numInGroup) for every type pair + 8 of other "
+                "shapes (ext = trailing numGroups uint16 / numVarDataFields uint8 for u8/u16 u16/u16 u32/u32 u16/u8 "
+                "[numInGroup/blockLength]; pad = blockLength at offset 0, numInGroup at offset 8 for u8/u32 u64/u16; rev = "
+                "numInGroup declared before blockLength for u16/u32 u32/u8); header bytes built from the schema's member "
+                "offsets, filler elsewhere; every item below runs for every composite. "
+                "flat groups, all 16 (numInGroup, blockLength) type pairs x sizes {0,1,2,3,127,128,255,32767,32768,"
                 "65535,2^31-1,2^31,2^32-1,2^32,2^40} x block lengths {0,1,2,255,65535,65536,2^31,2^32-1,2^32,2^40} "
                 "(as far as the types allow): iterator expressions begin()/end() followed by up to 3 of "
                 "++it it++ --it it-- it+=n it+n n+it it-=n it-n with n in {0,+-1,+-2,+-3,+-size,size-1,"
@@ -466,8 +585,9 @@ def run(res, replay=None):
         return res.finish()
 
     if replay and replay.get("lines"):
-        lines0 = [l for l in replay["lines"] if (l.split()[1 if l.startswith("c12n") else 2] == "0")]
-        lines1 = [l for l in replay["lines"] if l not in lines0]
+        rl = [upgrade_line(l) for l in replay["lines"]]
+        lines0 = [l for l in rl if (l.split()[1 if l.startswith("c12n") else 2] == "0")]
+        lines1 = [l for l in rl if l not in lines0]
     else:
         lines0 = gen_expr_cases(rng.fork("expr"), res.tier)
         grp = gen_group_cases(rng.fork("group"), res.tier)
@@ -613,4 +733,9 @@ def run(res, replay=None):
         "pointer arithmetic are not modelled); views are never created from a null pointer",
         "correspondence harness cpp/c12_harness.cpp + generated hs_c12 schema (sbeppc from /repo), little-endian only",
         "nested groups: entries of one shape (block + one uint16/uint16 flat group), as generated for the harness schema",
-        "extraction: ExtrOcamlBasic only; ocaml/drv_c12.ml builds the nested wire image with the extracted enc_nested"])
+        "dimension composites: size and member offsets are computed by harness/props/c12.py from the schema text it "
+        "generates (SBE layout rule: explicit offset, else end of the predecessor); the size is cross-checked against "
+        "sbepp::composite_traits<>::size_bytes() by the harness, the member offsets only through the observed values "
+        "(a header built with a wrong offset shows up as a size()/blockLength mismatch)",
+        "extraction: ExtrOcamlBasic only; ocaml/drv_c12.ml builds the nested wire image with the extracted enc_nested "
+        "from the header bytes of the case line, after decoding them with the model's own reader (GI.rd) at the layout's offsets"])
